@@ -904,7 +904,11 @@ def run(ctx):
                        "constructor variants of TaskBasedIonizationSimulation (sources / spectra / diffuse field / trackers / zero luminosities, 1..4 threads), the three random photon source "
                        "distributions x {normal, restart} constructor x {output off, on}; distinct = different op line, non-trivial = at least one pointer owned after the constructor. "
                        "whole runs (search): task-based RHD with/without radiation x live output / mask / turbulence / gravity / cooling x layouts x 1..4 threads, restart in two stages, dry runs, "
-                       "task-based photoionization x diffuse / continuous source / trackers (incl. several per cell, weighted, in a copied subgrid); distinct = (binary, configuration)")
+                       "task-based photoionization x diffuse / continuous source / trackers (incl. several per cell, weighted, in a copied subgrid); every named configuration has unequal numbers of "
+                       "cells per subgrid (all 6 orderings of 2,3,4 occur; thorough: every optional component x every ordering); stress runs with all live outputs, radiation in several steps and "
+                       "small pools (number of tasks 400-1000, buffers 60-300, queues 300-400: the task and buffer pools wrap around within a step). Quick: all runs on the normal binary + the "
+                       "stress subset (11 configurations) on the ASan/UBSan binary; thorough: every run on both + LeakSanitizer on the RHD locals. A run that does not end within 60 s (75 s under "
+                       "ASan) is a violation and stops further runs of its kind; distinct = (binary, configuration)")
     if info is None:
         oracle_search(ctx)
     else:
@@ -1007,9 +1011,11 @@ MANIFEST = dict(
          "tests or deletes no uninitialised pointer, uses none after its delete, and leaks nothing except what is stated per class (TimeLine of the RHD run, DiscPatch output stream); every constructor "
          "initialises every owned pointer; the descriptions before /repo commits 4acd754 and d5ef870 are shown unsafe. Tied to the code by constructing the real classes in 0xAA-poisoned storage with "
          "interposed operator new/delete for all option combinations (field-level allocation/free traces identical to the model's). NOT proved: out-of-bounds, use-after-free and uninitialised data "
-         "reads elsewhere and the exit status of whole runs — these are only searched by whole runs of all modes (exit status; ASan/UBSan build in the thorough tier).",
+         "reads elsewhere and the exit status of whole runs — these are only searched by whole runs of all modes with unequal cells per subgrid in every ordering and pools small enough to wrap "
+         "around (exit status, expected outputs, no hang on the normal binary; an ASan/UBSan build of the whole binary on a stress subset in the quick tier and on every run in the thorough tier).",
     note="Trusted: Lean kernel + 3 axioms; textual translator tools/gen_c12_lifecycle.py (fails closed); uniform-vector abstraction; same condition text = same option; null dereferences excluded only under "
-         "stated parameter-file assumptions (theorem rhdSimulation_null_source_distribution_is_dereferenced shows one is necessary: genuine crash). Whole-run part is a search with replayable parameter files, not a proof.",
+         "stated parameter-file assumptions (theorem rhdSimulation_null_source_distribution_is_dereferenced shows one is necessary: genuine crash). Whole-run part is a search with replayable parameter files, not a proof; "
+         "the sanitizer build lives in .build/asan (per repository path, incremental; `python3 tools/props/c12.py --prebuild` builds it ahead of time; valgrind memcheck on three runs is the fallback when it does not build).",
     technique="Lean 4 proof (sound per-field abstract interpretation of a small constructor/destructor language, generic theorem + decide on generated descriptions) + allocation-trace differential "
               "against the real classes + whole-run search with exit status and AddressSanitizer/UBSan")
 
